@@ -598,7 +598,7 @@ def control_tasks(rng, q, with_history, count, sizes, calls):
         tasks.append({"tid": f"r{i}", "tt": tt, "seed": rng.randrange(1 << 30), "calls": calls, "with_history": with_history})
     for name, tt in gen.gadget_networks().items():
         if len(tt) <= 4:
-            tasks.append({"tid": f"g{name}", "tt": tt, "seed": rng.randrange(1 << 30), "calls": calls * 2, "with_history": with_history})
+            tasks.append({"tid": f"g{name}", "tt": tt, "seed": rng.randrange(1 << 30), "calls": calls * 4, "with_history": with_history})
     return tasks
 
 
@@ -618,7 +618,7 @@ def c06(res: Result):
 def c07(res: Result):
     q = res.tier == Q
     rng = random.Random(res.seed + 7)
-    tasks = control_tasks(rng, q, False, 300 if q else 4000, [3, 3, 4, 4] if q else [3, 4, 4, 5], 6 if q else 12)
+    tasks = control_tasks(rng, q, False, 500 if q else 5000, [3, 3, 4, 4] if q else [3, 4, 4, 5], 10 if q else 16)
     res.cov["rule"] = ("succession_control on fresh diagrams (random non-empty targets, both strategies, bounds none/0/1/2/N, forbidden sets, "
                        "successful_only on/off); TLC builds the expected answer from the full succession diagram of the truth tables: "
                        "target-directed sub-diagram, end nodes, all root-to-end paths x all motifs per edge, and per step all inclusion-minimal "
